@@ -52,6 +52,13 @@ def partials(w, depth=0):
                 for p in ps[:3]:
                     out.append([cp(p)] + cp(w))
                     out.append(cp(w) + [cp(p)])
+                    if isinstance(x, dict):
+                        # ... and next to a full element carrying an extra key: under a relaxed
+                        # member schema only the partial one can be substituted
+                        x2 = cp(x)
+                        x2["zz"] = 1
+                        out.append([cp(p), x2])
+                        out.append([x2, cp(p)])
     return out
 
 
